@@ -298,6 +298,8 @@ pub struct ModelTree {
     pub dirs: BTreeSet<String>,
     /// directory paths whose existence the references disagree on: not compared
     pub unconstrained: BTreeSet<String>,
+    /// repository directories emptied by F-R: existence not compared until something re-creates them
+    pub removed_dirs: BTreeSet<String>,
     /// every path the model touched (for the "nothing else changes" check)
     pub touched: BTreeSet<String>,
     pub platform: u16,
@@ -372,7 +374,13 @@ impl ModelTree {
 
     fn write_at(&mut self, path: &str, offset: usize, data: &[u8]) {
         self.add_dir_chain(Self::parent(path));
-        let f = self.files.entry(path.to_string()).or_default();
+        self.files.entry(path.to_string()).or_default();
+        self.touched.insert(path.to_string());
+        if data.is_empty() {
+            // seeking past the end without writing does not extend a file
+            return;
+        }
+        let f = self.files.get_mut(path).unwrap();
         if f.len() < offset + data.len() {
             f.resize(offset + data.len(), 0);
         }
@@ -462,9 +470,8 @@ impl ModelTree {
                 }
                 // the references disagree on whether the directory itself survives
                 if self.dirs.remove(&dir) {
-                    self.unconstrained.insert(dir.clone());
+                    self.removed_dirs.insert(dir.clone());
                 }
-                self.unconstrained.insert(dir.clone());
                 self.touched.insert(dir);
             }
             Chunk::MakeDirTree { path, .. } => {
@@ -487,6 +494,10 @@ impl ModelTree {
         let settled: Vec<String> = self.unconstrained.iter().filter(|d| self.dirs.contains(*d)).cloned().collect();
         for d in settled {
             self.unconstrained.remove(&d);
+        }
+        let back: Vec<String> = self.removed_dirs.iter().filter(|d| self.dirs.contains(*d)).cloned().collect();
+        for d in back {
+            self.removed_dirs.remove(&d);
         }
     }
 }
